@@ -60,10 +60,9 @@ def run(pid, tier):
                 r["segs"] = r["segs"] + 1
                 break
         c2 = [dict(r) for r in seg]
-        for i, r in enumerate(c2):
-            if r.get("ev") == "grow_e":
-                del c2[i]
-                break
+        # drop the end of the last outermost call: a call that was entered never ends
+        last = max(i for i, r in enumerate(c2) if r.get("ev") == "grow_e" and r.get("level") == 1)
+        del c2[last]
         cov["selftest"] = selftest_mutations("Trace_StackGrowth", wd, {"corrupt": c1, "delete": c2})
     cov["traces_validated_against_impl"] = len(scs)
     cov["trace_records"] = info["total"]
